@@ -170,7 +170,7 @@ func tokText(t, v string) string {
 	if s, ok := ntText[t]; ok {
 		return s
 	}
-	if t == "quoted" {
+	if t == "quoted" || t == "empty" {
 		return `"` + v + `"`
 	}
 	if t == "word" {
@@ -282,6 +282,7 @@ func cmdParseEnum(args []string) {
 	rlen := fs.Int("len", 8, "max length of random sequences")
 	seed := fs.Int64("seed", 1, "seed for -random")
 	observe := fs.Bool("observe", false, "also record String/GoString/Marshal/ToPostgres/ToParameterizedPostgres")
+	withJSON := fs.Bool("json", false, "also record the JSON round trip of every returned expression")
 	fs.Parse(args)
 	var si, sk int
 	fmt.Sscanf(*shard, "%d/%d", &si, &sk)
@@ -324,7 +325,16 @@ func cmdParseEnum(args []string) {
 				observeAll(a)
 				observeAll(b)
 			}
-			r.write(map[string]any{"id": id, "q": q, "toks": a.Toks, "df": *df, "res": slim(a), "resdf": slim(b)})
+			line := map[string]any{"id": id, "q": q, "toks": a.Toks, "df": *df, "res": slim(a), "resdf": slim(b)}
+			if *withJSON {
+				if a.expr != nil {
+					line["rt"] = roundTrip(a.expr)
+				}
+				if b.expr != nil {
+					line["rtdf"] = roundTrip(b.expr)
+				}
+			}
+			r.write(line)
 			written++
 		}
 	}
@@ -489,6 +499,7 @@ func cmdParseGroups(args []string) {
 	df := fs.String("df", "dflt", "default field for the second run")
 	observe := fs.Bool("observe", false, "also record String/GoString/Marshal/ToPostgres/ToParameterizedPostgres")
 	withSQL := fs.Bool("sql", false, "also record both SQL renderings as PostgreSQL's parser reads them")
+	withJSON := fs.Bool("json", false, "also record the JSON round trip of every returned expression")
 	fs.Parse(args)
 	r, closeFn := newRecorder(*out, *trace != "")
 	defer closeFn()
@@ -542,6 +553,14 @@ func cmdParseGroups(args []string) {
 			if *withSQL {
 				inl, par := renderBoth(q, "")
 				oc["sql"] = map[string]any{"inline": inl, "param": par}
+			}
+			if *withJSON {
+				if a.expr != nil {
+					oc["rt"] = roundTrip(a.expr)
+				}
+				if b.expr != nil {
+					oc["rtdf"] = roundTrip(b.expr)
+				}
 			}
 			outCases = append(outCases, oc)
 		}
